@@ -3,7 +3,9 @@ PROP = {
     "module": "UmProps.C06",
     "gen_modules": ["ChunkTables", "Consts"],
     "oracle_prefix": "C06",
-    "streams": [{"name": "broker", "harness": "umh_broker", "driver": "broker"}],
+    "streams": [{"name": "broker", "harness": "umh_broker", "driver": "broker",
+                 "timeout": {"quick": 900, "thorough": 9000}}],  # shared thorough stream: ~15 min unloaded, far more
+                                                                 # when several broker checks run concurrently
     "search_s": 300,
     "assumptions": [
         "non-ordered mode only (enable_ordered_proxy = true is not modelled; there replace_failed_proxy stops after "
